@@ -22,14 +22,7 @@ func check(c *Ctx, h *animenc.History, stream string) {
 	rng := c.Rng.Fork()
 	o, vkey := animenc.RunAndEval(c, h, rng, animenc.EvalAlpha)
 	if h.Faulty() {
-		// direct evaluation only: the model has no failing codec
-		c.D.Evaluations++
-		c.Count("stream:" + stream)
 		c.Count(fmt.Sprintf("rejected-addframes:%d", len(o.Rejected)))
-		if vkey != "" {
-			c.Count("violation:" + vkey)
-		}
-		return
 	}
 	mode := "al"
 	if o.Err == "" && o.CodecExact(h) >= 0 {
